@@ -331,3 +331,31 @@ Fixpoint erun (img : list Z) (le : bool) (sh_offset sh_size : Z) (st : einfo) (h
 (* EHABIInfo.__init__: self._num_entry = None *)
 Definition eh_hist (img : list Z) (le : bool) (sh_offset sh_size : Z) (h : list eop) : list eans :=
   erun img le sh_offset sh_size (mkEInfo None [] []) h.
+
+(* ================================================================== the section header *)
+(* The objects above are built over a Section whose header ELFFile decoded: a dict of the ten
+   Elf_Shdr fields.  What the classes read of it:
+     AttributesSection: self['sh_offset'], self.data_size (= self['sh_size'] unless sh_flags has
+       SHF_COMPRESSED, in which case Section.__init__ reads a compression header: property C02);
+     EHABIInfo: self._arm_idx_section['sh_offset'] (section_offset()), ['sh_size'] (num_entry()).
+   Nothing else: in particular an index entry is EHABI_INDEX_ENTRY_SIZE = 8 bytes whatever
+   sh_entsize records, and sh_addr / sh_link / sh_info / sh_addralign play no part. *)
+Definition shdr : Type := list (string * Z).
+Fixpoint hget (h : shdr) (k : string) : Z :=
+  match h with
+  | [] => 0
+  | (n, v) :: r => if (n =? k)%string then v else hget r k
+  end.
+Definition SHF_COMPRESSED : Z := 0x800.
+
+Definition get_entry_sec (img : list Z) (le : bool) (h : shdr) (n : Z) : res eh_out :=
+  get_entry img le (hget h "sh_offset") (hget h "sh_size") n.
+Definition eh_hist_sec (img : list Z) (le : bool) (h : shdr) (hist : list eop) : list eans :=
+  eh_hist img le (hget h "sh_offset") (hget h "sh_size") hist.
+
+Definition read_attr_section_sec (ai : attr_impl) (le : bool) (img : list Z) (h : shdr) : res (list osubsec) :=
+  if negb (Z.land (hget h "sh_flags") SHF_COMPRESSED =? 0) then Err (EPy "compressed-section")
+  else read_attr_section ai le img (hget h "sh_offset") (hget h "sh_size").
+Definition attr_hist_sec (ai : attr_impl) (le : bool) (img : list Z) (h : shdr) (hist : list hop) : res (list hans) :=
+  if negb (Z.land (hget h "sh_flags") SHF_COMPRESSED =? 0) then Err (EPy "compressed-section")
+  else attr_hist ai le img (hget h "sh_offset") (hget h "sh_size") hist.
